@@ -548,6 +548,9 @@ def gen_session(rng, n_calls):
         d3['Sigma'] = [ren.get(x, x) for x in d3['Sigma']]
         d3['delta'] = [[q, ren.get(x, x), t] for q, x, t in d3['delta']]
         make(d3)
+        special_dfa = len(kinds) - 1
+    else:
+        special_dfa = None
     for spec in list(made):
         if spec['kind'] in ('dfa', 'nfa', 'pda', 'cfg', 'regexp') and rng.random() < (0.6 if spec['kind'] == 'regexp' else 0.25):
             tw = edits.twin(rng, spec)      # differs in one component only: q0, F or the start variable
@@ -557,6 +560,10 @@ def gen_session(rng, n_calls):
         if spec['kind'] in ('nfa', 'pda') and rng.random() < 0.2:
             spec['alias'] = True
     names_by_args = sorted(OPS)
+    if special_dfa is not None:
+        # make sure the unusual object is actually enumerated
+        steps.append({'op': 'dfa_words_up_to_n', 'args': [special_dfa], 'params': {'n': rng.randint(2, 4)}})
+        steps.append({'op': 'generate_language_dfa', 'args': [special_dfa], 'params': {'n': 2}})
     while sum(1 for s in steps if s['op'] not in ('make', 'edit')) < n_calls:
         if rng.random() < 0.05:
             # object-lifetime history: a made object is edited in place (by hand or by an *_in_place library function)
